@@ -792,3 +792,235 @@ Proof.
 Qed.
 
 End WithCC.
+
+(* ================================================================== every step, every trace *)
+Section Trace.
+Context {CC : Type} (cci : cc_iface CC).
+Notation vsock := (vsock CC).
+Variable cfg : vconfig.
+Hypothesis cfg_ok : c11_config_ok cfg = true.
+
+Lemma cid_ok_of_cfg : u16 (conn_id_send_of cfg).
+Proof.
+  unfold conn_id_send_of. destruct (vc_incoming cfg); [|apply wadd16_u16].
+  unfold c11_config_ok in cfg_ok. unfold u16. lia.
+Qed.
+
+Notation Jc := (J cfg).
+
+Lemma vsock_new_J mk s0 : vsock_new cci mk cfg = Some s0 -> Jc s0.
+Proof.
+  unfold vsock_new.
+  destruct (match (if vc_incoming cfg then None else Some _) with Some r => _ | None => _ end); [|discriminate].
+  intro H; injection H as <-. unfold J; vsimpl_goal.
+  unfold c11_config_ok in cfg_ok.
+  split; [reflexivity|]. split; [apply mss_ss_new_pos|].
+  split; [destruct (vc_incoming cfg); [unfold u16; lia|apply wadd16_u16]|].
+  split; [destruct (vc_incoming cfg); [unfold u16; lia|apply wsub16_u16]|].
+  split; [destruct (vc_incoming cfg); exact I|].
+  split; constructor.
+Qed.
+
+Lemma poll_init_J (s : vsock) : Jc s -> Jc (poll_init s).
+Proof.
+  intros (B1 & B2 & B3 & B4 & B5 & B6 & B7). unfold poll_init, J; vsimpl_goal.
+  repeat (split; [assumption|]). constructor.
+Qed.
+
+Lemma vstep_J (s : vsock) o : Jc s -> Jc (vstep_state cci s o).
+Proof.
+  intro Hj. unfold vstep_state. destruct o.
+  - cbn [vstep fst]. abstract (exact Hj).
+  - cbn [vstep fst]. abstract (exact Hj).
+  - cbn [vstep]. destruct (poll cci (VSockRec.set_sends s script)) as [s' r] eqn:E. cbn [fst].
+    apply (poll_J cci cfg cid_ok_of_cfg _ _ _ E). apply poll_init_J. abstract (exact Hj).
+  - cbn [vstep]. destruct (v_inbox_closed s); cbn [fst]; abstract (exact Hj).
+  - cbn [vstep fst]. abstract (exact Hj).
+  - cbn [vstep]. destruct (writer_dropped _); [|destruct (poll_write _ _) as [[tx1 r] w]];
+      cbn [fst]; abstract (exact Hj).
+  - cbn [vstep]. destruct (writer_dropped _); [|destruct (poll_flush _) as [[tx1 r] w]];
+      cbn [fst]; abstract (exact Hj).
+  - cbn [vstep]. destruct (writer_dropped _); [|destruct (poll_shutdown _) as [[tx1 r] w]];
+      cbn [fst]; abstract (exact Hj).
+  - cbn [vstep]. destruct (reader_dropped _); [|destruct (rx_read _ _) as [[rx1 r] w]];
+      cbn [fst]; abstract (exact Hj).
+  - cbn [vstep]. destruct (reader_dropped _); [|destruct (rx_drop_reader _) as [rx1 w]];
+      cbn [fst]; abstract (exact Hj).
+  - cbn [vstep]. destruct (drop_writer _) as [tx1 w]; cbn [fst]; abstract (exact Hj).
+Qed.
+
+(* only a poll emits *)
+Lemma emitted_nonpoll (s : vsock) o : (forall sc, o <> VoPoll sc) ->
+  emitted_of (fs_result (fstep_of cci s o)) = [].
+Proof.
+  intro Hn. unfold fstep_of. destruct o; try (exfalso; exact (Hn _ eq_refl)); cbn [vstep].
+  - reflexivity.
+  - reflexivity.
+  - destruct (v_inbox_closed s); reflexivity.
+  - reflexivity.
+  - destruct (writer_dropped _); [|destruct (poll_write _ _) as [[tx1 r] w]]; reflexivity.
+  - destruct (writer_dropped _); [|destruct (poll_flush _) as [[tx1 r] w]]; reflexivity.
+  - destruct (writer_dropped _); [|destruct (poll_shutdown _) as [[tx1 r] w]]; reflexivity.
+  - destruct (reader_dropped _); [|destruct (rx_read _ _) as [[rx1 r] w]; destruct r]; reflexivity.
+  - destruct (reader_dropped _); [|destruct (rx_drop_reader _) as [rx1 w]]; reflexivity.
+  - destruct (drop_writer _) as [tx1 w]; reflexivity.
+Qed.
+
+Lemma emitted_all_ok (s : vsock) o :
+  Jc s -> Forall (fun q => c11_packet_ok cfg q = true /\ conn_type (ch_type (fq_hdr q)) = true)
+                 (emitted_of (fs_result (fstep_of cci s o))).
+Proof.
+  intro Hj. destruct o; try (rewrite emitted_nonpoll; [constructor|intros sc; discriminate]).
+  destruct (poll cci (VSockRec.set_sends s script)) as [s' r] eqn:E.
+  rewrite (fstep_of_poll cci s script s' r E). cbn [fs_result emitted_of].
+  assert (H' : Jc s').
+  { apply (poll_J cci cfg cid_ok_of_cfg _ _ _ E). apply poll_init_J. abstract (exact Hj). }
+  destruct H' as (_ & _ & _ & _ & _ & _ & Ho).
+  apply Forall_forall. intros q Hq. apply in_map_iff in Hq. destruct Hq as (p & <- & Hp).
+  apply in_rev in Hp. rewrite Forall_forall in Ho. exact (Ho p Hp).
+Qed.
+
+Theorem c11_emitted_ok_step (s : vsock) o :
+  Jc s -> Jc (vstep_state cci s o) /\ c11_emitted_ok cfg (fstep_of cci s o) = true.
+Proof.
+  intro Hj. split; [apply vstep_J; exact Hj|].
+  unfold c11_emitted_ok. apply forallb_forall. intros q Hq.
+  pose proof (emitted_all_ok s o Hj) as F. rewrite Forall_forall in F. exact (proj1 (F q Hq)).
+Qed.
+
+Theorem c11_conn_types_ok_step (s : vsock) o :
+  Jc s -> c11_conn_types_ok cfg (fstep_of cci s o) = true.
+Proof.
+  intro Hj. unfold c11_conn_types_ok. apply forallb_forall. intros q Hq.
+  pose proof (emitted_all_ok s o Hj) as F. rewrite Forall_forall in F. exact (proj2 (F q Hq)).
+Qed.
+
+Theorem c11_emitted_ok_trace mk (s0 : vsock) ops :
+  vsock_new cci mk cfg = Some s0 -> forallb (c11_emitted_ok cfg) (ftrace cci s0 ops) = true.
+Proof.
+  intro H. apply (ftrace_forallb cci Jc).
+  - intros s o Hj. exact (proj2 (c11_emitted_ok_step s o Hj)).
+  - intros s o Hj. apply vstep_J. exact Hj.
+  - exact (vsock_new_J mk s0 H).
+Qed.
+
+Theorem c11_conn_types_ok_trace mk (s0 : vsock) ops :
+  vsock_new cci mk cfg = Some s0 -> forallb (c11_conn_types_ok cfg) (ftrace cci s0 ops) = true.
+Proof.
+  intro H. apply (ftrace_forallb cci Jc).
+  - intros s o Hj. exact (c11_conn_types_ok_step s o Hj).
+  - intros s o Hj. apply vstep_J. exact Hj.
+  - exact (vsock_new_J mk s0 H).
+Qed.
+
+End Trace.
+
+(* ================================================================== what the predicate means on the wire *)
+Lemma serialize_version h buflen bs : serialize h buflen = Some bs -> nth 0 bs 0 mod 16 = 1.
+Proof.
+  unfold serialize. destruct (buflen <? _); [discriminate|]. intro H; injection H as <-.
+  unfold encode_packet, fixed_bytes. cbn [app nth]. apply typever_mod.
+Qed.
+
+(* an emitted datagram that satisfies the predicate: serialize writes it with version 1, and any receiver
+   running `deserialize` reads back exactly the header the connection built, with the payload boundary
+   right behind it *)
+Theorem packet_ok_on_the_wire (cfg : vconfig) (q : fpacket) (buflen : Z) (payload : list Z) :
+  c11_packet_ok cfg q = true ->
+  ser_len (hdr_of_chdr (fq_hdr q)) <= buflen -> bytes_okb payload = true ->
+  exists bs, serialize (hdr_of_chdr (fq_hdr q)) buflen = Some bs /\
+             Zlength bs = ser_len (hdr_of_chdr (fq_hdr q)) /\
+             nth 0 bs 0 mod 16 = 1 /\
+             nth 0 bs 0 / 16 = type_to_number (ch_type (fq_hdr q)) /\
+             deserialize (bs ++ payload) = Some (hdr_of_chdr (fq_hdr q), ser_len (hdr_of_chdr (fq_hdr q))).
+Proof.
+  intros Hok Hlen Hp. unfold c11_packet_ok in Hok.
+  repeat (apply andb_prop in Hok; destruct Hok as [Hok ?]).
+  match goal with Hh : hdr_okb _ = true |- _ =>
+    destruct (roundtrip _ buflen payload Hh Hlen Hp) as (bs & Hs & Hz & Hd) end.
+  exists bs. split; [exact Hs|]. split; [exact Hz|]. split; [exact (serialize_version _ _ _ Hs)|].
+  split; [|exact Hd].
+  unfold serialize in Hs. destruct (buflen <? _); [discriminate|]. injection Hs as <-.
+  unfold encode_packet, fixed_bytes. cbn [app nth hdr_of_chdr h_type]. apply typever_div.
+Qed.
+
+(* the payload rule of the predicate is the one UtpMessage::deserialize enforces on the receiving side *)
+Lemma packet_ok_payload_rule (cfg : vconfig) (q : fpacket) :
+  c11_packet_ok cfg q = true -> 0 <= fq_plen q /\ (0 < fq_plen q <-> ch_type (fq_hdr q) = ST_DATA).
+Proof.
+  intro Hok. unfold c11_packet_ok in Hok.
+  repeat (apply andb_prop in Hok; destruct Hok as [Hok ?]).
+  match goal with Hb : Bool.eqb _ _ = true |- _ => apply Bool.eqb_prop in Hb; rename Hb into Hb' end.
+  split; [lia|]. rewrite <- ptype_eqb_iff, <- Hb'. lia.
+Qed.
+
+Lemma packet_ok_conn_id (cfg : vconfig) (q : fpacket) :
+  c11_packet_ok cfg q = true -> ch_conn_id (fq_hdr q) = expected_conn_id cfg (ch_type (fq_hdr q)).
+Proof.
+  intro Hok. unfold c11_packet_ok in Hok.
+  repeat (apply andb_prop in Hok; destruct Hok as [Hok ?]). lia.
+Qed.
+
+(* ================================================================== non-vacuity
+   an outgoing connection (our SYN announced id 2065, so we send with 2066) writes 100 bytes, receives an
+   out-of-order data packet, then an ACK of its data, shuts down: the trace contains an ST_DATA, an
+   ST_STATE carrying a SACK extension and an ST_FIN; every one satisfies the predicate *)
+Definition ex_cc (w : Z) : cc_iface unit :=
+  {| cc_window := fun _ => w; cc_sshthresh := fun _ => w; cc_set_mss := fun c _ => c;
+     cc_smss := fun _ => 528; cc_on_recovered := fun c _ _ => c;
+     cc_on_ack := fun c _ _ _ => Some c; cc_on_rto := fun c _ => c;
+     cc_on_enter_recovery := fun c _ => c; cc_set_remote_window := fun c _ => c |}.
+
+Definition ex_cfg : vconfig :=
+  {| vc_incoming := false; vc_ipv4 := true; vc_link_mtu := 1500; vc_rx_buf := 65536;
+     vc_tx_init := 32768; vc_tx_max := 1048576; vc_nagle := false; vc_max_retx := 5;
+     vc_inactivity := 10000000000; vc_wait_last_ack := true; vc_mtu_probe_max_retx := 0;
+     vc_isn := 100; vc_remote_seq := 7; vc_remote_conn_id := 2065; vc_remote_wnd := 1048576;
+     vc_remote_ts := 5; vc_syn_sent := 0; vc_now0 := 1000000 |}.
+
+Definition ex_hdr (t : ptype) (seq ack : Z) : chdr :=
+  {| ch_type := t; ch_conn_id := 2065; ch_ts := 10; ch_ts_diff := 0; ch_wnd := 1048576;
+     ch_seq := seq; ch_ack := ack; ch_sack := None; ch_close_reason := None |}.
+
+Definition ex_ops : list vop :=
+  [VoWrite (repeat 0 100); VoPoll [];
+   VoDeliver {| m_hdr := ex_hdr ST_DATA 8 100; m_payload := [1; 2; 3] |}; VoPoll [];
+   VoDeliver {| m_hdr := ex_hdr ST_STATE 6 101; m_payload := [] |}; VoPoll []; VoShutdown; VoPoll []].
+
+Definition ex_trace : list fstep :=
+  match vsock_new (ex_cc 1048576) (fun _ _ => tt) ex_cfg with
+  | Some s0 => ftrace (ex_cc 1048576) s0 ex_ops
+  | None => []
+  end.
+
+Definition emits_kind (p : fpacket -> bool) (tr : list fstep) : bool :=
+  existsb (fun st => existsb p (emitted_of (fs_result st))) tr.
+
+Lemma c11_emitted_nonvacuous :
+  c11_config_ok ex_cfg = true /\
+  forallb (c11_emitted_ok ex_cfg) ex_trace = true /\
+  emits_kind (fun q => ptype_eqb (ch_type (fq_hdr q)) ST_DATA && (fq_plen q =? 100) &&
+                       (ch_conn_id (fq_hdr q) =? 2066)) ex_trace = true /\
+  emits_kind (fun q => ptype_eqb (ch_type (fq_hdr q)) ST_STATE &&
+                       match ch_sack (fq_hdr q) with Some _ => true | None => false end) ex_trace = true /\
+  emits_kind (fun q => ptype_eqb (ch_type (fq_hdr q)) ST_FIN) ex_trace = true.
+Proof. vm_compute. repeat split; reflexivity. Qed.
+
+(* the predicate is not trivially true: it rejects a wrong connection id, a data packet without payload,
+   a payload on an ACK, an out-of-range field, a SACK of another length *)
+Definition ex_pkt (t : ptype) (conn seq : Z) (sk : option sackbits) (plen : Z) : fpacket :=
+  {| fq_hdr := {| ch_type := t; ch_conn_id := conn; ch_ts := 10; ch_ts_diff := 0; ch_wnd := 1048576;
+                  ch_seq := seq; ch_ack := 6; ch_sack := sk; ch_close_reason := None |};
+     fq_plen := plen |}.
+
+Lemma c11_packet_ok_rejects :
+  c11_packet_ok ex_cfg (ex_pkt ST_STATE 2066 101 None 0) = true /\
+  c11_packet_ok ex_cfg (ex_pkt ST_STATE 2065 101 None 0) = false /\
+  c11_packet_ok ex_cfg (ex_pkt ST_SYN 2065 101 None 0) = true /\
+  c11_packet_ok ex_cfg (ex_pkt ST_SYN 2066 101 None 0) = false /\
+  c11_packet_ok ex_cfg (ex_pkt ST_DATA 2066 101 None 0) = false /\
+  c11_packet_ok ex_cfg (ex_pkt ST_STATE 2066 101 None 3) = false /\
+  c11_packet_ok ex_cfg (ex_pkt ST_FIN 2066 65536 None 0) = false /\
+  c11_packet_ok ex_cfg (ex_pkt ST_STATE 2066 101 (Some {| sk_bits := repeat false 64; sk_len := 64 |}) 0) = true /\
+  c11_packet_ok ex_cfg (ex_pkt ST_STATE 2066 101 (Some {| sk_bits := repeat false 64; sk_len := 32 |}) 0) = false.
+Proof. vm_compute. repeat split; reflexivity. Qed.
